@@ -25,6 +25,7 @@ use crate::{
 };
 
 const RP: &str = "example.com";
+const U2F_HANDLE: [u8; 20] = [0x44; 20];
 
 #[derive(Clone, Copy, Debug, PartialEq, Eq, Hash)]
 enum Cer {
@@ -43,6 +44,8 @@ enum Cer {
     /// assertion whose allow list names both seeded credentials (k first): the store answers with both
     AssertBoth(usize),
     Register,
+    /// U2F registration of one fixed key handle for one application (the caller chooses the handle)
+    U2fRegister,
 }
 
 #[derive(Clone, Copy, Debug, PartialEq, Eq, Hash)]
@@ -73,12 +76,15 @@ struct Config {
     /// in-memory store only (it finds by id alone): the seeded credentials' stored RP ID is spelled
     /// differently from the request's (imported, or registered through another entry point)
     alias_rp: bool,
+    /// reference store only: the store keeps one credential per (RP ID, user entity) as
+    /// authenticatorMakeCredential prescribes, and the registrations create discoverable credentials
+    accounts: bool,
 }
 
 impl Config {
     fn json(&self) -> Value {
         json!({"configuration": self.name, "ceremonies": self.cers.iter().map(|c| format!("{c:?}")).collect::<Vec<_>>(), "store": format!("{:?}", self.store),
-            "lock": format!("{:?}", self.lock), "uv_yields": self.uv_yields, "store_yields": self.store_yields, "newest_first": self.newest_first, "update_fault": self.update_fault, "find_fault": self.find_fault, "stored_rp_id_spelled_differently": self.alias_rp})
+            "lock": format!("{:?}", self.lock), "uv_yields": self.uv_yields, "store_yields": self.store_yields, "newest_first": self.newest_first, "update_fault": self.update_fault, "find_fault": self.find_fault, "stored_rp_id_spelled_differently": self.alias_rp, "store_keeps_one_credential_per_account": self.accounts})
     }
 }
 
@@ -139,7 +145,8 @@ fn run_config(cfg: &Config, choose: &mut dyn FnMut(usize, usize) -> usize) -> Ru
                 }
             }
             let mut tasks: Vec<BoxFut<Result<(Vec<u8>, u32), u8>>> = Vec::new();
-            for (a, c) in auths.iter_mut().zip(cfg.cers.iter()) {
+            let accounts = cfg.accounts;
+            for (who, (a, c)) in auths.iter_mut().zip(cfg.cers.iter()).enumerate() {
                 let c = *c;
                 let creds = &creds;
                 tasks.push(Box::pin(async move {
@@ -163,12 +170,17 @@ fn run_config(cfg: &Config, choose: &mut dyn FnMut(usize, usize) -> usize) -> Ru
                                 Err(e) => Err(status_byte_ref(&e)),
                             }
                         }
-                        Cer::Register => match a.make_credential(mc_request(RP, b"new", &[2u8; 32], vec![pk_param(coset::iana::Algorithm::ES256)], None, None, false, true, true)).await {
+                        Cer::Register => match a.make_credential(mc_request(RP, format!("new-{who}").as_bytes(), &[2u8; 32], vec![pk_param(coset::iana::Algorithm::ES256)], None, None, accounts, true, true)).await {
                             Ok(r) => {
                                 let id = authdata::decode(&r.auth_data.to_vec()).ok().and_then(|d| d.attested.map(|a| a.cred_id)).unwrap_or_default();
                                 Ok((id, 0))
                             }
                             Err(e) => Err(status_byte_ref(&e)),
+                        },
+                        // (the "credential id" reported for a U2F registration is the public point it returned)
+                        Cer::U2fRegister => match passkey_authenticator::U2fApi::register(a, passkey_types::u2f::RegisterRequest { challenge: [who as u8; 32], application: [7u8; 32] }, &U2F_HANDLE).await {
+                            Ok(r) => Ok(([r.public_key.x.to_vec(), r.public_key.y.to_vec()].concat(), 0)),
+                            Err(e) => Err(u8::from(e)),
                         },
                     }
                 }));
@@ -212,6 +224,7 @@ fn run_config(cfg: &Config, choose: &mut dyn FnMut(usize, usize) -> usize) -> Ru
         }
         (StoreKind::Rec, LockKind::Mutex) => {
             let st = RecStore::new(log.clone(), Disc::Full);
+            st.set_one_per_account(cfg.accounts);
             st.set_all_yields(cfg.store_yields);
             fail_idless_lookups(&st, cfg);
             for c in &creds {
@@ -222,6 +235,7 @@ fn run_config(cfg: &Config, choose: &mut dyn FnMut(usize, usize) -> usize) -> Ru
         }
         (StoreKind::Rec, LockKind::RwLock) => {
             let st = RecStore::new(log.clone(), Disc::Full);
+            st.set_one_per_account(cfg.accounts);
             st.set_all_yields(cfg.store_yields);
             fail_idless_lookups(&st, cfg);
             for c in &creds {
@@ -265,6 +279,25 @@ fn check_history(rep: &mut Report, engine: &str, case: &Value, items: &[(Cer, Op
             rep.count("registrations_checked");
             if !final_store.iter().any(|c| &c.id == id) {
                 rep.violate(&format!("{engine}: a successful registration's credential is missing from the store afterwards"), hex_short(id), case.clone());
+            }
+        }
+    }
+    // U2F registrations of one key handle: when they did not overlap, the store holds the key the later one returned
+    let u2f: Vec<(&Vec<u8>, u64, u64)> = items.iter().filter_map(|(cer, res, s, e)| if let (Cer::U2fRegister, Some(Ok((pk, _)))) = (cer, res) { Some((pk, *s, *e)) } else { None }).collect();
+    if !u2f.is_empty() {
+        rep.count_n("u2f_registrations_checked", u2f.len() as u64);
+        let held = final_store.iter().find(|c| c.id == U2F_HANDLE);
+        match held {
+            None => rep.violate(&format!("{engine}: a successful registration's credential is missing from the store afterwards"), format!("U2F key handle {}", hex_short(&U2F_HANDLE)), case.clone()),
+            Some(h) => {
+                let stored: Vec<u8> = [h.x.clone().unwrap_or_default(), h.y.clone().unwrap_or_default()].concat();
+                let last = u2f.iter().max_by_key(|u| u.1).unwrap();
+                let disjoint = u2f.iter().filter(|u| u.1 != last.1).all(|u| u.2 < last.1) && u2f.iter().filter(|u| u.1 == last.1).count() == 1;
+                if disjoint && &stored != last.0 {
+                    rep.violate(&format!("{engine}: the store does not hold the key a later, successful registration of the same key handle returned"), format!("stored point {}, returned point {}", hex_short(&stored), hex_short(last.0)), case.clone());
+                } else if !u2f.iter().any(|u| u.0 == &stored) {
+                    rep.violate(&format!("{engine}: the store holds a key no successful registration of the key handle returned"), hex_short(&stored), case.clone());
+                }
             }
         }
     }
@@ -336,28 +369,39 @@ fn configs(thorough: bool) -> Vec<Config> {
         ("refused assert||register", vec![Cer::Register, Cer::AssertRefused(0)]),
         ("silent assert||register", vec![Cer::Register, Cer::AssertSilent(0)]),
         ("silent assert||assert on two credentials", vec![Cer::Assert(1), Cer::AssertSilent(0)]),
+        ("u2f register||u2f register of one key handle", vec![Cer::U2fRegister, Cer::U2fRegister]),
+        ("u2f register||assert", vec![Cer::U2fRegister, Cer::Assert(0)]),
     ];
     for (name, cers) in shapes {
         for store in [StoreKind::Memory, StoreKind::Rec] {
+            // what saving a second credential under an id already held means is defined for the shipped
+            // stores (the record is replaced), not by the store contract: not run on the reference store
+            if store == StoreKind::Rec && cers.contains(&Cer::U2fRegister) {
+                continue;
+            }
             for lock in [LockKind::Mutex, LockKind::RwLock] {
                 for uv_yields in [1usize, 2] {
                     let sy: Vec<usize> = if store == StoreKind::Rec { if thorough { vec![0, 1] } else { vec![1] } } else { vec![0] };
                     for store_yields in sy {
-                        v.push(Config { name, cers: cers.clone(), store, lock, uv_yields, store_yields, newest_first: false, update_fault: None, find_fault: None, alias_rp: false });
+                        v.push(Config { name, cers: cers.clone(), store, lock, uv_yields, store_yields, newest_first: false, update_fault: None, find_fault: None, alias_rp: false, accounts: false });
                         if store == StoreKind::Memory && uv_yields == 1 && cers.iter().any(|c| matches!(c, Cer::Assert(_) | Cer::AssertBoth(_))) {
-                            v.push(Config { name, cers: cers.clone(), store, lock, uv_yields, store_yields, newest_first: false, update_fault: None, find_fault: None, alias_rp: true });
+                            v.push(Config { name, cers: cers.clone(), store, lock, uv_yields, store_yields, newest_first: false, update_fault: None, find_fault: None, alias_rp: true, accounts: false });
+                        }
+                        if store == StoreKind::Rec && uv_yields == 1 && cers.contains(&Cer::Register) {
+                            // a store that files one credential per account; the registrations are for different users
+                            v.push(Config { name, cers: cers.clone(), store, lock, uv_yields, store_yields, newest_first: false, update_fault: None, find_fault: None, alias_rp: false, accounts: true });
                         }
                         if store == StoreKind::Rec && uv_yields == 1 {
                             // a conforming store that lists newest first and answers id-less lookups
                             if cers.contains(&Cer::AssertAny) {
-                                v.push(Config { name, cers: cers.clone(), store, lock, uv_yields, store_yields, newest_first: true, update_fault: None, find_fault: None, alias_rp: false });
+                                v.push(Config { name, cers: cers.clone(), store, lock, uv_yields, store_yields, newest_first: true, update_fault: None, find_fault: None, alias_rp: false, accounts: false });
                             }
                             // a store that refuses one counter update
                             if cers.iter().any(|c| matches!(c, Cer::Assert(_) | Cer::AssertSilent(_))) {
-                                v.push(Config { name, cers: cers.clone(), store, lock, uv_yields, store_yields, newest_first: false, update_fault: Some(1), find_fault: None, alias_rp: false });
+                                v.push(Config { name, cers: cers.clone(), store, lock, uv_yields, store_yields, newest_first: false, update_fault: Some(1), find_fault: None, alias_rp: false, accounts: false });
                                 // a store whose k-th lookup fails once (k counted over the whole run, warm-up included)
                                 for k in [2usize, 3] {
-                                    v.push(Config { name, cers: cers.clone(), store, lock, uv_yields, store_yields, newest_first: false, update_fault: None, find_fault: Some(k), alias_rp: false });
+                                    v.push(Config { name, cers: cers.clone(), store, lock, uv_yields, store_yields, newest_first: false, update_fault: None, find_fault: Some(k), alias_rp: false, accounts: false });
                                 }
                             }
                         }
@@ -448,7 +492,7 @@ fn scheduler_engine(rep: &mut Report, args: &Args, only: Option<u64>) {
             1 => vec![Cer::Assert(0), Cer::Assert(0), Cer::Assert(0)],
             _ => vec![Cer::Assert(0), Cer::Register, Cer::Assert(1)],
         };
-        let cfg = Config { name: "three mixed", cers, store: *rng.pick(&[StoreKind::Memory, StoreKind::Rec]), lock: *rng.pick(&[LockKind::Mutex, LockKind::RwLock]), uv_yields: rng.range(1, 2), store_yields: rng.below(2), newest_first: rng.chance(1, 4), update_fault: if rng.chance(1, 4) { Some(rng.below(3)) } else { None }, find_fault: if rng.chance(1, 5) { Some(rng.range(2, 5)) } else { None }, alias_rp: false };
+        let cfg = Config { name: "three mixed", cers, store: *rng.pick(&[StoreKind::Memory, StoreKind::Rec]), lock: *rng.pick(&[LockKind::Mutex, LockKind::RwLock]), uv_yields: rng.range(1, 2), store_yields: rng.below(2), newest_first: rng.chance(1, 4), update_fault: if rng.chance(1, 4) { Some(rng.below(3)) } else { None }, find_fault: if rng.chance(1, 5) { Some(rng.range(2, 5)) } else { None }, alias_rp: false, accounts: false };
         let r = catch(|| {
             let mut r2 = rng.clone();
             let mut choose = |_s: usize, n: usize| r2.below(n);
@@ -525,7 +569,7 @@ fn thread_round(rep: &mut Report, seed: u64, idx: u64, threads: usize, per_threa
                                     Err(e) => Err(status_byte_ref(&e)),
                                 })
                             }
-                            Cer::AssertSilent(_) | Cer::AssertRefused(_) | Cer::AssertBoth(_) => unreachable!("not generated by the thread engine"),
+                            Cer::AssertSilent(_) | Cer::AssertRefused(_) | Cer::AssertBoth(_) | Cer::U2fRegister => unreachable!("not generated by the thread engine"),
                             Cer::Register => block_on_thread(auth.make_credential(mc_request(RP, b"new", &[2u8; 32], vec![pk_param(coset::iana::Algorithm::ES256)], None, None, false, true, true)), 200).map(|r| match r {
                                 Ok(r) => Ok((authdata::decode(&r.auth_data.to_vec()).ok().and_then(|d| d.attested.map(|a| a.cred_id)).unwrap_or_default(), 0)),
                                 Err(e) => Err(status_byte_ref(&e)),
